@@ -153,7 +153,7 @@ var funcmap = FuncMap{
 		if v, ok := v.(bool); ok {
 			return []Attribute{{Name: k, BoolVal: &v}}
 		}
-		if _, ok := v.(Nil); ok {
+		if _, ok := v.(Nil); ok || v == nil {
 			b := false
 			return []Attribute{{Name: k, BoolVal: &b}}
 		}
